@@ -461,7 +461,7 @@ func hostileCmd(args []string) error {
 	}
 	// (b) seeded structure-aware mutation, (c) truncations
 	rng := rand.New(rand.NewSource(*seed))
-	nmut := 300
+	nmut := 1500
 	if *tier == "thorough" {
 		nmut = 12000
 	}
